@@ -4,6 +4,8 @@ from .. import mutrules as M
 
 
 def run(prog, rep):
+    from .. import mutrules as _M
+    rep.attempt(_M.session_boundary, prog, rep)
     ct = Container(prog)
     rep.explanation = (
         "dirty-entry: forward must-pass-through on the mutators' CFGs - every store into the table or into a field of "
